@@ -43,6 +43,21 @@ def run_scenario(sc: dict[str, Any]) -> dict[str, Any]:
                 return {'n': 1} if sc.get('result') else None
             finally:
                 sim.rec('t.end', k=k)
+        if sc.get('sync'):       # a synchronous timer function: kopf runs it in a thread (a virtual thread here), durations and all
+            from sim import vthreads
+
+            def body(retry, **kw):        # noqa: F811
+                dur, k, d = next_run()
+                sim.rec('t.start', retry=retry, dur=dur, k=k, d=d)
+                try:
+                    if dur:
+                        vthreads.sleep(dur)
+                    if k == 'temp': raise kopf.TemporaryError('scripted', delay=d)
+                    if k == 'perm': raise kopf.PermanentError('scripted')
+                    if k == 'exc': raise ValueError('scripted')
+                    return {'n': 1} if sc.get('result') else None
+                finally:
+                    sim.rec('t.end', k=k)
         body.__name__ = body.__qualname__ = 'tick'
         c = sc['conf']
         kw: dict[str, Any] = dict(registry=reg, id='tick', backoff=c['backoff'])
@@ -125,7 +140,8 @@ def gen_scenarios(seed: int, n: int) -> list[dict[str, Any]]:
         changes = sorted(rnd.sample(range(2, 30), rnd.randint(0, 3)))
         out.append({'id': f'timer-{seed}-{i}', 'conf': conf, 'runs': runs, 'changes': changes,
                     'relist_changes': [changes.pop()] if changes and i % 4 == 3 else [],
-                    'delete_at': rnd.choice([None, None, rnd.randint(5, 35)]), 'end': 60})
+                    'delete_at': rnd.choice([None, None, rnd.randint(5, 35)]), 'end': 60,
+                    'sync': i % 5 == 2})
     return out
 
 
